@@ -177,7 +177,7 @@ PYF, HNCF, MSAF, MSF = CL + 'PercusYevick.py', CL + 'HyperNettedChain.py', CL + 
 mutant('C09-py-one-minus-gamma', ['C09', 'C01'], 'R09.d', PYF, "            self.value = (np.exp(-self.potential)-1.0)*(1.0+gamma)", "            self.value = (np.exp(-self.potential)-1.0)*(1.0-gamma)")
 mutant('C09-py-plus-one', 'C09', 'R09.d', PYF, "self.value[mask] = (np.exp(-self.potential[mask])-1.0)*(1.0+gamma[mask])", "self.value[mask] = (np.exp(-self.potential[mask])+1.0)*(1.0+gamma[mask])")
 mutant('C09-hnc-plus-u', ['C09', 'C01'], 'R09.d', HNCF, "            self.value = np.exp(gamma - self.potential) - 1.0 - gamma", "            self.value = np.exp(gamma + self.potential) - 1.0 - gamma")
-mutant('C09-hnc-branches-disagree', ['C09', 'C03'], 'R03.a', HNCF, "self.value[mask] = np.exp(gamma[mask] - self.potential[mask]) - 1.0 - gamma[mask]", "self.value[mask] = np.exp(gamma[mask] - self.potential[mask]) - 1.0")
+mutant('C09-hnc-branches-disagree', ['C09'], 'R09.d', HNCF, "self.value[mask] = np.exp(gamma[mask] - self.potential[mask]) - 1.0 - gamma[mask]", "self.value[mask] = np.exp(gamma[mask] - self.potential[mask]) - 1.0")
 mutant('C09-msa-sign', 'C09', 'R09.d', MSAF, "            self.value = -self.potential\n\n", "            self.value = self.potential\n\n")
 mutant('C03-core-no-gamma', ['C03', 'C09'], 'R03.a', PYF, "            self.value = -1 - gamma\n", "            self.value = -1 - 0*gamma\n")
 mutant('C03-core-plus-gamma', ['C03', 'C09'], 'R03.a', HNCF, "            self.value = -1 - gamma\n", "            self.value = -1 + gamma\n")
@@ -308,3 +308,12 @@ mutant('C15-sigma-prefix', 'C15', 'R15.s', DI, "            for t2 in self.types
 mutant('C06-gr-cache-reused', 'C06', 'R06.h', CA + 'pair_correlation.py', "    PRISM.pairCorr = PRISM.totalCorr + 1.0", "    if getattr(PRISM,'pairCorr',None) is not None:\n        return PRISM.pairCorr\n    PRISM.pairCorr = PRISM.totalCorr + 1.0")
 mutant('C06-sf-cache-reused', 'C06', 'R06.h', CA + 'structure_factor.py', "    structureFactor = (PRISM.totalCorr*PRISM.sys.density.pair + PRISM.omega)", "    if getattr(PRISM,'_sk',None) is None:\n        PRISM._sk = (PRISM.totalCorr*PRISM.sys.density.pair + PRISM.omega)\n    structureFactor = PRISM._sk * 1.0")
 twin('C06-twin-sf-store-only', ['C06', 'C05'], CA + 'structure_factor.py', "    return structureFactor", "    PRISM.last_structure_factor = structureFactor.get_copy()\n    return structureFactor")
+
+mutantN('C07-ma-skip-allclose', ['C07', 'C06'], 'R07.m', [(DO, "        for (i,j),(t1,t2),pair in marray.iterpairs():\n            marray[t1,t2] = self.to_real(pair)", "        for (i,j),(t1,t2),pair in marray.iterpairs():\n            if np.allclose(pair,0.0):\n                continue\n            marray[t1,t2] = self.to_real(pair)")])
+mutant('C08-dst-padded', ['C08', 'C07'], 'R08.t', DO, "return dst(self.DST_II_coeffs*array,type=2)/self.k", "return dst(self.DST_II_coeffs*array,type=2,n=2*self._length)[:self._length]/self.k")
+twin('C08-twin-dst-n-default', ['C08', 'C07'], DO, "return dst(self.DST_II_coeffs*array,type=2)/self.k", "return dst(self.DST_II_coeffs*array,type=2,n=len(array),norm=None)/self.k")
+mutant('C07-coeffs-lazy', ['C07', 'C08'], 'R07.i', DO, "        self.DST_II_coeffs = 2.0*np.pi *self.r*self._dr \n", "        if getattr(self,'DST_II_coeffs',None) is None or len(self.DST_II_coeffs)!=self._length:\n            self.DST_II_coeffs = 2.0*np.pi *self.r*self._dr \n")
+mutant('C09-hnc-out-buffer', 'C09', 'R09.h', HNCF, "            self.value = np.exp(gamma - self.potential) - 1.0 - gamma", "            if self.value is None:\n                self.value = np.empty(np.shape(gamma))\n            np.subtract(gamma,self.potential,out=self.value)\n            np.exp(self.value,out=self.value)\n            self.value -= 1.0 + gamma")
+mutant('C09-msa-mask-cached', ['C09', 'C03'], 'R09.h', MSAF, "            mask = r>self.sigma\n            self.value[mask] = -self.potential[mask]", "            if getattr(self,'_mask',None) is None:\n                self._mask = r>self.sigma\n            mask = self._mask\n            self.value[mask] = -self.potential[mask]")
+mutant('C09-ms-zero-core', 'C09', 'R09.d', MSF, "            self.value = np.exp(np.sqrt(gamma - self.potential + 0.5) - 1.0) - 1.0 - gamma", "            self.value = -1 - gamma\n            mask = r>0.0\n            self.value[mask] = np.exp(np.sqrt(gamma[mask] - self.potential[mask] + 0.5) - 1.0) - 1.0 - gamma[mask]")
+twin('C09-twin-ms-negative-core', ['C09', 'C03'], MSF, "            self.value = np.exp(np.sqrt(gamma - self.potential + 0.5) - 1.0) - 1.0 - gamma", "            self.value = -1 - gamma\n            mask = r>-1.0\n            self.value[mask] = np.exp(np.sqrt(gamma[mask] - self.potential[mask] + 0.5) - 1.0) - 1.0 - gamma[mask]")
